@@ -286,7 +286,9 @@ async fn corrupt_task(spec: CorruptSpec) -> (usize, usize, Vec<Finding>) {
     let key: ArrayKey<4> = make_key(0);
     let key1: ArrayKey<4> = make_key(1);
     w.s().write(&key1, Bytes::from(value_bytes("bystander", 40)), BlobRecordTimestamp::new(1)).await.expect("write");
-    w.s().write(&key, Bytes::from(val.clone()), BlobRecordTimestamp::new(2)).await.expect("write");
+    // the victim carries metadata so that the metadata-driven read paths are exercised too
+    let vmeta = meta_shape(1).unwrap();
+    w.s().write_with(&key, Bytes::from(val.clone()), BlobRecordTimestamp::new(2), vmeta.clone()).await.expect("write");
     ctl::quiesce().await;
     let blob = dir.join("t.0.blob");
     let parsed = blobfile::parse(&std::fs::read(&blob).unwrap(), 4);
@@ -330,6 +332,13 @@ async fn corrupt_task(spec: CorruptSpec) -> (usize, usize, Vec<Finding>) {
                     )),
                     Ok(other) => fs.push(finding("corrupt_read_other", format!("{}: read returned {:?}", spec.name, other.map(|b| b.len())))),
                 }
+                match w.s().read_with(&key, &vmeta).await {
+                    Ok(ReadResult::Found(b)) if b[..] != val[..] => fs.push(finding(
+                        "corrupt_read_with_ok",
+                        format!("{}, {phase}: data byte {pos} altered with {p:?}: read_with returned Ok with altered bytes", spec.name),
+                    )),
+                    _ => {}
+                }
                 if let Ok(entries) = w.s().read_all(&key).await {
                     for e in entries {
                         if let Ok(d) = e.load_data().await {
@@ -340,6 +349,17 @@ async fn corrupt_task(spec: CorruptSpec) -> (usize, usize, Vec<Finding>) {
                         if let Ok(rec) = e.load().await {
                             if rec.into_data()[..] != val[..] {
                                 fs.push(finding("corrupt_load_ok", format!("{}, {phase}: data byte {pos} altered with {p:?}: Entry::load returned Ok with altered bytes", spec.name)));
+                            }
+                        }
+                    }
+                }
+                // metadata first, then the whole record through the same entry
+                if let Ok(entries) = w.s().read_all(&key).await {
+                    for mut e in entries {
+                        let _ = e.load_meta().await;
+                        if let Ok(rec) = e.load().await {
+                            if rec.into_data()[..] != val[..] {
+                                fs.push(finding("corrupt_load_after_meta_ok", format!("{}, {phase}: data byte {pos} altered with {p:?}: load_meta + Entry::load returned Ok with altered bytes", spec.name)));
                             }
                         }
                     }
